@@ -12,1275 +12,1056 @@ Definition show_fres (r : fres) : string :=
   end.
 Definition check (rs : list rune) : string := digest (show_fres (format_res rs)).
 Definition full (rs : list rune) : string := show_fres (format_res rs).
-Eval vm_compute in ("<<<M1730>>>" ++ check (runes_of_ascii "MetaData
-chars {int8
-
-    Z9_
-
-,  float	rootA
-
-`tab	here` 	 // @lengthOf(
-	  , 
-      //x
-		// @lengthOf(
-	  T
-
-o`it's`
-
-,
-	roots  int	,  // c
-    repeatCount MetaDataX
-	, float32
-	falsey `say ""hi""`, 
-}  packet
-msg_type
-	{  repeat	f32
-o  // `tick` ""quote"" 'q'
-	, @tag(
-
-0
-) 
-char[]A
-
-,repeat 
-char[] tag`say ""hi""`
-,	repeat char[
-
-0 ]
-	Z9_ ,
-
-    zchar[ 
-1
-	]  lengthOf
-	,
-
-    i64 
-T  , 
-match
-	float
-    as leftPad{ 
-007 :
-len/// triple
-    ,
-""it's"" : 
-len
-
-    , ""it's""  :// @lengthOf(
-		float[
-
-255	,
-00	,
-    ""abc"" , ""abc""
-,
-
-    1
-
-,
-	""" ++ [28040; 24687]%N ++ runes_of_ascii """ 	 // `tick` ""quote"" 'q'
-      ,
-
-""x y"" , """"  // a // b
-]  :	_x
-
-,	"""" 
-:len ,
-""\" ++ [233]%N ++ runes_of_ascii """
-	: // a // b
-
-i64_
-, //	t
-      }
-    , roots{ 
-char[1
-	] 	 // @lengthOf(
-  Header
-
-    @lengthOf(
-x_y_z ), 
-body
-u128 , 	 // `tick` ""quote"" 'q'
-  char[]
-float
-, chars
-
-@lengthOf( x
-
-    )
-`doc` ,
-
-} ,
-    crc`it's` 
-    // `tick` ""quote"" 'q'
-  ,
-    @calculatedFrom(	""" ++ [128512]%N ++ runes_of_ascii """ ) BodyLength 
-`" ++ [28040; 24687; 31867; 22411]%N ++ runes_of_ascii "` 
-,
-
-    } packet	u128
-{
-
-lengthOf
-    ,	pack
-@lengthOf( u8x// c
-  )
-
-    `// not a comment`  // " ++ [27880; 37322]%N ++ runes_of_ascii "
-,@leftPad (' '
-	)float
-	{match
-asx  as
-
-charz{ 
-[ 
-4294967296  , """"
-    , 255,
-
-42
-,
-""1"" 
-] :u8x ""{,}"" :
-
-Foo 42 :
-leftPad [	// trailing space 
-255 
-, 
-	    // " ++ [128512]%N ++ runes_of_ascii " emoji
-
-""a\""b"" ,
-""it's"",
-4294967296
-	] :
-stringy
-,3
-:Header
-,} 
-,
-	match
-o// `tick` ""quote"" 'q'
-  as 
-Pad 
-    // trailing space 
-
-  {3	:
-    i64_	//x
-
-	, 
-} , repeat string msg_type ,
-	match packetx// " ++ [27880; 37322]%N ++ runes_of_ascii "
-as
-	lengthOf { 
-[""x y"" ,
-    """"
-	]
-:x_y_z 
-// " ++ [27880; 37322]%N ++ runes_of_ascii "
-
-  // c
-} ,
-
-} ,
-i64
-    float
-
-    , 
-repeat	zchar[ 3
-	]rootA  `crlf
-line`
-, 
-match
-	msg_type
-    as
-
-len { ""CRC32"" : MetaDataX  ,
-}	,f32
-
-A ,  char[ 
-0123456789
-
-]	chars	// " ++ [27880; 37322]%N ++ runes_of_ascii "
-	`{ , }`
-,/// triple
-
-@calculatedFrom(	""a\""b"")
-string	string_ `" ++ [233]%N ++ runes_of_ascii "`,
-}")).
-Eval vm_compute in ("<<<M156>>>" ++ check (runes_of_ascii "packet
-A { @rightPad ( '0' ) repeat	i8i8
-    { zchar[ 007 ]
-    packetx,
-    metadata `" ++ [28040; 24687; 31867; 22411]%N ++ runes_of_ascii "` ,	repeat float64  T ,}, @tag(0)Z9_ { int
-@lengthOf( tag
-)`line1
-line2`
-, repeat i8i8 // packet A { u8 x, }
-{  zchar[  00 ]stringy
-,
-repeat f32a{ match i64_ //
-as
-    string_ {[ 255 , ""{,}"" , 0123456789 ]
-: x_y_z
-, """ ++ [233]%N ++ runes_of_ascii "t" ++ [233]%N ++ runes_of_ascii """ : A
-, ""`tick`"" : len ,} , } ,
-    //
-    repeat u8x {u16 Z9_
-@calculatedFrom(""" ++ [128512]%N ++ runes_of_ascii """ ) `line1
-line2` ,f32 matchKey
-    ,} ,// " ++ [27880; 37322]%N ++ runes_of_ascii "
-float64 u8x `
-`,
-    },//
-} , // `tick` ""quote"" 'q'
-a1	{ repeat
-    // trailing space 
-    zchar[ 007
-] Foo `two words`
-,f32a	@calculatedFrom( """ ++ [28040; 24687]%N ++ runes_of_ascii """// trailing space 
-) ,int64 i64_  @calculatedFrom( // trailing space 
-""`tick`"" ) , } ,
-    @lengthOf(
-    // c
-    Header )	f32
-stringy @calculatedFrom(
-""x y"" )`say ""hi""` , Foo , float64
-BodyLength@calculatedFrom( // " ++ [27880; 37322]%N ++ runes_of_ascii "
-""packet"") ,
-    uint32
-// packet A { u8 x, }
-//
-int
-//
-//x
-, } packet string_{ @tag( 4294967296
-) repeat u
-`two words` , repeat zchar[ 0 ]
-BodyLength
-, @tag( 255 )/// triple
-int `line1
-line2` ,	uint8x`it's`,@tag(
-65535 )
-int8
-    metadata
-`" ++ [233]%N ++ runes_of_ascii "` ,/// triple
-match
-options1
-//x
-// " ++ [128512]%N ++ runes_of_ascii " emoji
-as
-    float// packet A { u8 x, }
-{ 3: f32a , """ ++ [28040; 24687]%N ++ runes_of_ascii """
-    : charz
-,}
-,match uint8x	as
-string_ { ""CRC32"" //x
-:
-x
-, } , uint8	packetx`crlf
-line` ,
-@leftPad (
-)
-    zchar[
-0
-] Foo `say ""hi""`, }
-")).
-Eval vm_compute in ("<<<M331>>>" ++ check (runes_of_ascii "packet o
-// trailing space 
-//x
-{	repeat pack stringy `two words`	,
-    char[	1 ]
-leftPad , }
-/// triple
-// @lengthOf(
-MetaData msg_type{ zchar[  1] Pad`" ++ [28040; 24687; 31867; 22411]%N ++ runes_of_ascii "` , uint32 //x
-charz//
-`a\`
-,  A u8x `// not a comment` ,
-    // `tick` ""quote"" 'q'
-    } packet
-options1
-    {@calculatedFrom( """ ++ [233]%N ++ runes_of_ascii "t" ++ [233]%N ++ runes_of_ascii """
-) @rightPad( )
-Pad
-@lengthOf(// packet A { u8 x, }
-pack ) `` ,
-match
-    A
-as
-    a1 { 255  :
-msg_type  ,
-}
-,
-// " ++ [27880; 37322]%N ++ runes_of_ascii "
-//
-@lengthOf( tag )  @tag( 00 )@rightPad(' '
-) match Header	as f32a { """" : float , } // @lengthOf(
-, char[] T@calculatedFrom(
-    // packet A { u8 x, }
-    ""packet""	) , repeat asx /// triple
-msg_type`crlf
-line` , @calculatedFrom( ""\" ++ [233]%N ++ runes_of_ascii """ ) @tag( // trailing space 
-7
-)
-int64 o
-`line1
-line2`,
-    // trailing space 
-    } // " ++ [128512]%N ++ runes_of_ascii " emoji
-root
-packet// packet A { u8 x, }
-crc  { int8
-body
-@lengthOf( matchKey ) `two words` ,
-    //	t
-    @lengthOf( u8x )
-zchar[
-0123456789
-    ] i8i8,
-} MetaData  a1 { falsey _x
-`
-` ,
-char[] body`" ++ [28040; 24687; 31867; 22411]%N ++ runes_of_ascii "` ,
-// packet A { u8 x, }
-//
-zchar[ 42] trueish `
-` , float trueish,  metadata //x
-o `{ , }`, }")).
-Eval vm_compute in ("<<<M1938>>>" ++ check (runes_of_ascii "
-
-  options{
-StringPrefixLenType
-
-    = 
-u64 ; 
-ArrayPrefixLenType =u32 ;
-FixedStringPadFromLeft	=false 
-;}
-packet  Party
-{
-
-zchar[
-
-7  ] OrderId
-
-    ,
-    InTail6
-	{
-
-repeat	char[ 1  ]
-
-msgKind ,  char[3
-	]Tail ,char[3  ] 
-Flags
-
-    ,	i16 tag7 
-, },
-    @rightPad
-
-(	'0' )char[
-12 
-]
-clOrdID,
-
-} packet
-
-    Quote  { @leftPad
-    (
-'0'
-    ) char[	11 ] price,
-repeat  InCount7	{ i32 x
-    ,	Party,	u8 Ref
-	, u8 tag7
-	,},char[] seqNo ,
-
-    Party ,	}
-packet  Logon
-	{ @rightPad
-    ('\x00' ) char[5]Note	,
-i16
-
-    sym
-
-    ,
-
-    InPrice72{
-	char[9 
-]
-
-Ref 
-, zchar[
-1  ]  venue 
-,  }
-,
-
-    char[]
-clOrdID, }root	packet Reject{
-
-    repeat
-	Logon
-    , @leftPad  (
-' '
-)	char[ 
-4
-	]
-
-    seqNo, 
-zchar[
-
-    5
-
-]
-
-Acct  ,  u32	x
-,
-u16	f1 @lengthOf( Body
-),	match x
-as Body
-
-{ [
-	169
-,
-74
-    ]:  Quote,
-    45 
-:
-	Party , 7
-
-    :
-
-    Logon,
-
-    }
-,
-	}")).
-Eval vm_compute in ("<<<M1321>>>" ++ check (runes_of_ascii "// top
-packet // c0
-P1
-    // c1
-{ // c2
-u8
-    // c3
-a // c4a
-  // c4b
-,
-    // c5
-} // c6
-packet
-    // c7
-P2 // c8
-{ // c9a
-  // c9b
-P1 // c10
-, } // c12a
-  // c12b
-packet // c13a
-  // c13b
-P3
-    // c14
-{
-    // c15
-P2
-    // c16
-, // c17
-P1 , // c19
-} // c20a
-  // c20b
-packet // c21
-P4 // c22
-{ // c23
-repeat // c24a
-  // c24b
-P3
-    // c25
-, P2 , } root // c30a
-  // c30b
-packet // c31
-P5 { // c33
-P4
-    // c34
-,
-    // c35
-P3 // c36a
-  // c36b
-, P1
-    // c38
-,
-    // c39
-u8 K // c41
-, // c42
-match // c43
-K // c44a
-  // c44b
-as
-    // c45
-Body // c46a
-  // c46b
-{ // c47a
-  // c47b
-4 : // c49a
-  // c49b
-P4 // c50
-, // c51
-3 :
-    // c53
-P3 // c54a
-  // c54b
-, // c55a
-  // c55b
-2 // c56a
-  // c56b
-:
-    // c57
-P2 ,
-    // c59
-1 : // c61a
-  // c61b
-P1 // c62
-, // c63a
-  // c63b
-}
-    // c64
-, }
-    // c66
-")).
-Eval vm_compute in ("<<<M1799>>>" ++ check (runes_of_ascii "
-
-  root packet matchKey
-
-{ match 
-Foo as 
-Z9_ 
-{ // c
-  [
-	""x y""
-    , ""1""  ,
-007, 7
-]:
-
-    pack	,
-
-""`tick`""
-    : 
-u128	,
-    ""a	b"" :  msg_type,
-	[  
-      //
-
-  //
-	  00
-,
-65535
-]
-
-: a1
-,""it's""
-:
-
-Foo 
-,	// " ++ [128512]%N ++ runes_of_ascii " emoji
-	[	//x
-
-""""
-
-]	: u , }
-	,}	packet calculatedFrom	// c
-  { msg_type 
-{ T @calculatedFrom(
-""\n"" )
-	, float64
-	i8i8 ,
-	As
-
-    `
-` ,u32 rootA 
-@lengthOf( 
-    // c
-	// `tick` ""quote"" 'q'
-    float )
-, }  ,	}
-packet
-// " ++ [27880; 37322]%N ++ runes_of_ascii "
-  	x_y_z
-{  @tag(	//x
-    	0
-) i64_
-	    // " ++ [27880; 37322]%N ++ runes_of_ascii "
-  	@lengthOf(  
-      //
-	MetaDataX
-
-),	}  packet A 
-{ @calculatedFrom( ""a\\"")
-
-@calculatedFrom( ""abc""	)_x
-
-    u	`say ""hi""` 
-,
-	} 
-options
-    // `tick` ""quote"" 'q'
-	{// trailing space 
-  	metadata
-	=""a\\""
-; // a // b
-}
-
-")).
-Eval vm_compute in ("<<<M184>>>" ++ check (runes_of_ascii "packet options1{@leftPad	( '0' )	@rightPad ( // a // b
-'\x00'
-) @tag(
-255
-) /// triple
-repeat string As `
-`,
-@calculatedFrom(
-"""" )@calculatedFrom(//x
-""x y"" )
-a1
-{ Foo {trueish { tag
-@lengthOf(  i8i8 ) `doc`
-, }
-, zchar[
-00 ] f32a @lengthOf( calculatedFrom) , repeat
-zchar[ 1
-    ] stringy`{ , }`
-    , },uint64  repeatCount	@lengthOf(// `tick` ""quote"" 'q'
-asx
-    ) , char[ 42
-] lengthOf @calculatedFrom(// c
-""packet""), char[ 10 ] calculatedFrom @lengthOf( BodyLength ), } ,
-asx`// not a comment`,  } options { matchKey =""" ++ [128512]%N ++ runes_of_ascii """ falsey = ""a\""b"" ; A // a // b
-= ""CRC32"" msg_type
-    =
-    //x
-    """ ++ [233]%N ++ runes_of_ascii "t" ++ [233]%N ++ runes_of_ascii """	; } MetaData o//	t
-{
-} packet
-Pad{  }")).
-Eval vm_compute in ("<<<M260>>>" ++ check (runes_of_ascii "packet metadata{ @rightPad
-    (	) zchar[
-//	t
-// `tick` ""quote"" 'q'
-0123456789] i64_
-    // @lengthOf(
-    @calculatedFrom( ""\n"" ) , @leftPad (
-    ' '// " ++ [27880; 37322]%N ++ runes_of_ascii "
-) zchar[ // `tick` ""quote"" 'q'
-255
-]
-    MetaDataX `{ , }`// a // b
-, @rightPad (
-' ' )@calculatedFrom(""abc"" ) // " ++ [128512]%N ++ runes_of_ascii " emoji
-@lengthOf(
-matchKey
-// `tick` ""quote"" 'q'
-// `tick` ""quote"" 'q'
-)
-repeat char[ 42 ] packetx // packet A { u8 x, }
-`" ++ [233]%N ++ runes_of_ascii "` ,  trueish@calculatedFrom( ""packet"" )
-`a\` , matchKey int `" ++ [28040; 24687; 31867; 22411]%N ++ runes_of_ascii "` ,	@tag(
-    // c
-    0
-) len{ char[65535 ] Header,
-}
-,@lengthOf( f32a ) zchar[	10  ]
-    trueish `crlf
-line` ,  }
-")).
-Eval vm_compute in ("<<<M1736>>>" ++ check (runes_of_ascii "packet u128 {
-    // trailing space 
-    string Header `say ""hi""`,
-    repeat crc f32a,
-    char[10] _x,
-    @calculatedFrom(""x y"")
-    repeat charz {
-        Logon @lengthOf(T) `crlf
-        line`,
-        repeat char[0123456789] Z9_ `crlf
-        line`,
-    },
-    match Packet as float {
-        1 : lengthOf,
-    },
-    MetaDataX,
-    match x as u8x {
-        10 : crc,
-    },
-}
-
-root packet Header {
-    @calculatedFrom(""{,}"")
-    a1 {
-        char[007] pack,
-        stringy zchar,
-        repeat char[] o `it's`,
-    },
-}")).
-Eval vm_compute in ("<<<M1392>>>" ++ check (runes_of_ascii "packet Logon {
-    repeatCount {
-        BodyLength `crlf
-                line`,
-    },
-    zchar a1 `u8 x,`,
-    match Foo as Foo {
-        ""\n"" : i8i8,
-        [""abc"", ""CRC32""] : crc,
-        [
-            3, ""x y"", 42, ""`tick`"", 1,
-            ""a\""b"", ""CRC32"", 255
-        ] : repeatCount,
-        [
-            1, 007, ""\n"", 007, 7,
-            ""// no comment"", 255
-        ] : uint8x,
-        00 : f32a,
-    },
-    // a // b
-    uint16 Pad @lengthOf(uint8x) `doc`,
-}")).
-Eval vm_compute in ("<<<M1569>>>" ++ check (runes_of_ascii "
-// top
-	  options  // c0
-	{  // c1
-    	f32a// c2
-      = 	 // c3
-0  // c4
-	} 	 // c5
-
-packet// c6
-	trueish// c7
-
-	{  // c8
-
-}// c9
-  MetaData 	 // c10
-  _x // c11
-	{// c12
-    char[  // c13
-	0123456789 // c14
-    ] // c15
-	zchar // c16
-,  // c17
-    string 	 // c18
-		crc 	 // c19
-
-,// c20
-	  char[	// c21
-
-1  // c22
-]// c23
-
-	options1	// c24
-  ,  // c25
-    uint8  // c26
-    	repeatCount	// c27
-,  // c28
-  }// c29
-")).
-Eval vm_compute in ("<<<M76>>>" ++ check (runes_of_ascii "packet rootA { repeat uint16 stringy `" ++ [233]%N ++ runes_of_ascii "`
-,body
-@lengthOf( stringy ) , int32 matchKey // " ++ [27880; 37322]%N ++ runes_of_ascii "
-,
-    @lengthOf(roots)@calculatedFrom( ""a\""b""
-) @leftPad(' ') i64
-    leftPad
-@lengthOf( repeatCount )
-`u8 x,` , //	t
-f64 len
-    @lengthOf( BodyLength// trailing space 
-) `// not a comment` , @rightPad
-(
-)
-    @leftPad ( '0')repeat
-string len
-, // c
-char[] chars `two words`	, } //	t")).
-Eval vm_compute in ("<<<M1647>>>" ++ check (runes_of_ascii "
-root
-    packet
-    Logon 
-{
-@rightPad
-    ( // @lengthOf(
-
-  '0' )
-	repeat 
-charz  // " ++ [27880; 37322]%N ++ runes_of_ascii "
-
-  { 	 // " ++ [128512]%N ++ runes_of_ascii " emoji
-
-Z9_
-
-    `{ , }`
-    ,string string_
-`say ""hi""`,
-
-repeat
-
-int8 
-rootA
-    , match
-    Foo as  pack	{  [
-
-    42
-    // c
-	/// triple
-		, 0
+Eval vm_compute in ("<<<M165>>>" ++ check (runes_of_ascii "packet falsey { char[7
     ]
-: u,""a\""b""
+Foo @calculatedFrom( ""CRC32"" ) , @tag(
+    //
+    10)	u8 Packet`" ++ [233]%N ++ runes_of_ascii "` ,repeat  stringy
+,
+@lengthOf( // a // b
+float)tag { repeat
+    u8x {
+int16 charz@lengthOf(trueish ) , //	t
+repeat  string calculatedFrom,
+charz @calculatedFrom(  ""a\""b""
+)	`line1
+line2`
+,
+},u64
+    MetaDataX @calculatedFrom( """ ++ [128512]%N ++ runes_of_ascii """
+    ) `" ++ [233]%N ++ runes_of_ascii "`
+    ,rootA
+    // packet A { u8 x, }
+    {
+    repeat	u64 BodyLength
+`" ++ [233]%N ++ runes_of_ascii "` , pack @calculatedFrom( //x
+""{,}"" )
+    `" ++ [28040; 24687; 31867; 22411]%N ++ runes_of_ascii "` ,repeat // c
+x charz,
+},
+    // a // b
+    char[] packetx, }	, // `tick` ""quote"" 'q'
+calculatedFrom , u x_y_z
+,repeat	int	i64_ ,@leftPad (
+    ' '
+)u32 T @calculatedFrom( ""{,}"" )
+, repeat
+    metadata , } root packet
+chars
+{ char[	65535
+]  pack @lengthOf( As ) `tab	here` , char[
+255] msg_type `// not a comment`
+    ,@calculatedFrom(
+    ""// no comment"" ) @tag( //	t
+0 ) @tag(10 ) repeat Header {
+    char[]
+// @lengthOf(
+// " ++ [27880; 37322]%N ++ runes_of_ascii "
+i64_,repeat T//x
+`` ,match uint8x	as i64_ {
+00// `tick` ""quote"" 'q'
+: _x ,	65535: //
+Z9_,
+""1""
+: u8x ,
+007 : Z9_
+, 255
 :
-
+matchKey
+""1"" :
+crc , } , } ,
+    @calculatedFrom(	""packet""	) match int as x_y_z{ 0123456789 :	Logon
+    // @lengthOf(
+    ,
+    //	t
+    [ 0123456789, ""it's"" ]
+:
 int
-	,	}
-
-// c
-	// `tick` ""quote"" 'q'
-    	,
-    }
-, 
+    , [""a	b"" , ""CRC32"" , 0, 4294967296 , """"	] :
+pack , 0 : u , } , match // @lengthOf(
+string_ as
+int
+{ 0: repeatCount [ ""abc""
+    ] : // " ++ [27880; 37322]%N ++ runes_of_ascii "
+float 007: msg_type , [
+    ""a\""b""	]:
+charz , } , i16 MetaDataX`say ""hi""`, repeat u `tab	here` , repeat falsey  { repeat i8 lengthOf `a\` ,
+    repeatCount@lengthOf( o)
+    `{ , }`,}, }packet rootA
+    { calculatedFrom//	t
+@calculatedFrom( ""x y"") ,
+char Pad @calculatedFrom( ""a\""b"" ) `" ++ [233]%N ++ runes_of_ascii "`
+    , @leftPad
+( '\x00' )	repeat float64 tag ,
+    // " ++ [27880; 37322]%N ++ runes_of_ascii "
+    @calculatedFrom( ""1"") repeat Foo ,  } // " ++ [27880; 37322]%N)).
+Eval vm_compute in ("<<<M382>>>" ++ check (runes_of_ascii "options {
+	StringPrefixLenType = u16;
+	ArrayPrefixLenType = u16;
 }
+
+packet SampleBinary {
+    uint16 MsgType `" ++ [28040; 24687; 31867; 22411]%N ++ runes_of_ascii "`,
+    u16 BodyLenght @lengthOf(Body) `" ++ [28040; 24687; 20307; 38271; 24230]%N ++ runes_of_ascii "`,
+    match MsgType as Body {
+        1 : Logon,
+        2 : Logout,
+        3 : Heartbeat,
+        4 : RiskControlRequest,
+        5 : RiskControlResponse,
+    },
+        @calculatedFrom(""CRC32"")
+    u32 Ckecksum `" ++ [26657; 39564; 21644]%N ++ runes_of_ascii "`,
+}
+
+packet Logon {
+     @leftPad('0')
+    char[10] UserName `" ++ [29992; 25143; 21517]%N ++ runes_of_ascii "`,
+    string Password `" ++ [23494; 30721]%N ++ runes_of_ascii "`,
+    uint64 ClientId `" ++ [23458; 25143; 31471]%N ++ runes_of_ascii "ID`,
+    u16 HeartbeatInterval `" ++ [24515; 36339; 38388; 38548]%N ++ runes_of_ascii "`,
+}
+
+packet Logout {
+      @rightPad('0')
+    char[10] UserName `" ++ [29992; 25143; 21517]%N ++ runes_of_ascii "`,
+    uint64 ClientId `" ++ [23458; 25143; 31471]%N ++ runes_of_ascii "ID`,
+}
+
+packet Heartbeat {
+}
+
+packet RiskControlRequest {
+    string UniqueOrderId `" ++ [21807; 19968; 35746; 21333; 21495]%N ++ runes_of_ascii "`,
+    char[16] ClOrdID `" ++ [23458; 25143; 35746; 21333; 21495]%N ++ runes_of_ascii "`,
+    char[3] MarketID `" ++ [24066; 22330]%N ++ runes_of_ascii "id`,
+    char[12] SecurityID `" ++ [35777; 21048; 20195; 30721]%N ++ runes_of_ascii "`,
+    char Side `" ++ [20080; 21334; 26041; 21521]%N ++ runes_of_ascii "`,
+    char OrderType `" ++ [35746; 21333; 31867; 22411]%N ++ runes_of_ascii "`,
+    u64 Price `" ++ [20215; 26684]%N ++ runes_of_ascii "`,
+    u32 Qty `" ++ [25968; 37327]%N ++ runes_of_ascii "`,
+    repeat string ExtraInfo `" ++ [38468; 21152; 20449; 24687]%N ++ runes_of_ascii "`,
+    repeat SubOrder {
+    		char[16] ClOrdID `" ++ [23376; 35746; 21333; 21495]%N ++ runes_of_ascii "`,
+    		u64 Price `" ++ [23376; 35746; 21333; 20215; 26684]%N ++ runes_of_ascii "`,
+    		u32 Qty `" ++ [23376; 35746; 21333; 25968; 37327]%N ++ runes_of_ascii "`,
+    	},
+}
+
+packet RiskControlResponse {
+    string UniqueOrderId `" ++ [21807; 19968; 35746; 21333; 21495]%N ++ runes_of_ascii "`,
+    i32 Status `" ++ [29366; 24577]%N ++ runes_of_ascii "`,
+    string Msg `" ++ [32467; 26524; 20449; 24687]%N ++ runes_of_ascii "`,
+    repeat Detail,
+}
+
+packet Detail {
+    string RuleName `" ++ [35268; 21017; 21517; 31216]%N ++ runes_of_ascii "`,
+    u16 Code `" ++ [21407; 22240; 20195; 30721]%N ++ runes_of_ascii "`,
+}")).
+Eval vm_compute in ("<<<M1336>>>" ++ check (runes_of_ascii "// top
+options // c0a
+  // c0b
+{ // c1a
+  // c1b
+LittleEndian // c2
+= false
+    // c4
+; StringPrefixLenType =
+    // c7
+u8 // c8
+; // c9
+ArrayPrefixLenType
+    // c10
+= // c11
+u64 // c12
+; // c13
+FixedStringPadFromLeft // c14
+=
+    // c15
+false ; // c17a
+  // c17b
+FixedStringPadChar // c18
+= // c19
+' ' ; // c21a
+  // c21b
+} packet Reject // c24a
+  // c24b
+{
+    // c25
+repeat // c26
+char[ 4 // c28a
+  // c28b
+] // c29a
+  // c29b
+seqNo , string Px
+    // c33
+,
+    // c34
+} // c35
+root // c36
+packet // c37a
+  // c37b
+Trade { // c39a
+  // c39b
+@rightPad ( // c41a
+  // c41b
+'0' // c42a
+  // c42b
+) // c43a
+  // c43b
+char[ // c44a
+  // c44b
+2 ]
+    // c46
+msgKind // c47a
+  // c47b
+, // c48
+repeat // c49
+f64 price , // c52
+InAcct79 { // c54a
+  // c54b
+repeat // c55
+Reject // c56a
+  // c56b
+, // c57
+zchar[ // c58a
+  // c58b
+7 // c59
+] // c60
+OrderId , // c62
+} // c63
+,
+    // c64
+Reject // c65
+, // c66a
+  // c66b
+} // c67a
+  // c67b
 ")).
-Eval vm_compute in ("<<<M1277>>>" ++ check (runes_of_ascii "// top
+Eval vm_compute in ("<<<M1447>>>" ++ check (runes_of_ascii "options {
+    FixedStringPadFromLeft = true;
+    FixedStringPadChar = '0';
+}
+
+packet Leg {
+    repeat InSym93 {
+        zchar[3] Acct,
+        string Side2,
+        i32 Flags,
+        f32 Note,
+        i32 msgKind,
+    },
+    f64 Note,
+    uint16 Px,
+}
+
+packet Quote {
+    zchar[2] OrderId,
+}
+
+packet Ack {
+    repeat string lastPx,
+    zchar[4] price,
+    uint32 OrderId,
+    Quote,
+    int8 Acct,
+}
+
+packet Fill {
+    repeat Leg,
+    @rightPad('0')
+    char[11] Note,
+    f64 Px,
+    @rightPad('\x00')
+    char[5] Flags,
+    zchar[9] x,
+    string msgKind,
+}
+
+root packet Order {
+    Leg,
+    repeat Ack,
+    @rightPad('\x00')
+    char[3] Side2,
+    repeat char[1] seqNo,
+    u16 clOrdID,
+    match clOrdID as Body {
+        198 : Leg,
+        23 : Quote,
+        13 : Ack,
+        159 : Fill,
+    },
+    u32 venue @calculatedFrom(""CRC32""),
+}")).
+Eval vm_compute in ("<<<M1383>>>" ++ check (runes_of_ascii "// top
 options
     // c0
-{
-    // c1
-LittleEndian // c2
-=
-    // c3
-true
-    // c4
+{ LittleEndian // c2a
+  // c2b
+= // c3
+true // c4a
+  // c4b
 ;
     // c5
 }
     // c6
-root // c7a
-  // c7b
-packet P // c9a
+packet
+    // c7
+Logon // c8a
+  // c8b
+{ // c9a
   // c9b
-{ u16
+u8 // c10
+x
     // c11
-a // c12
-, // c13
-u32 // c14a
+, string
+    // c13
+user // c14a
   // c14b
-Sum
-    // c15
-@calculatedFrom( ""CRC32"" ) // c18a
+, // c15a
+  // c15b
+} // c16
+packet // c17
+Logout // c18a
   // c18b
-,
-    // c19
-} // c20a
+{ // c19
+u16 // c20a
   // c20b
-")).
-Eval vm_compute in ("<<<M1821>>>" ++ check (runes_of_ascii "packet MDSnapshotZZ {
+reason
+    // c21
+, }
+    // c23
+packet // c24a
+  // c24b
+Empty
+    // c25
+{ }
+    // c27
+root // c28
+packet // c29a
+  // c29b
+Frame // c30a
+  // c30b
+{
+    // c31
+u16 MsgType // c33a
+  // c33b
+,
+    // c34
 u8
-
-a	, }  packet
-
-OrderACK
-	{ u16 b ,
-
-    }
-
-packet	HTTPServerInfo
-{ string  s
-    , 
-}
-
-    root
-	packet  FIXMsg {u8
-
-    KType
-,
-	MDSnapshotZZ  ,
-
-repeat OrderACK
-,match	KType
-as
-    Body
-    {	1 : HTTPServerInfo 
-,
-2:	OrderACK,}	, }
-")).
-Eval vm_compute in ("<<<M214>>>" ++ check (runes_of_ascii "MetaData tag {body Packet	, int16 // @lengthOf(
-body // `tick` ""quote"" 'q'
-, f32a uint8x , } packet falsey {
-x { char[ 7 ] lengthOf , char[] o
-    `say ""hi""`
-    // `tick` ""quote"" 'q'
-    ,
-//
-/// triple
-}
-,}
-// `tick` ""quote"" 'q'
-")).
-Eval vm_compute in ("<<<M1822>>>" ++ check (runes_of_ascii "
-
-  // top
-  root 	 // c0
-    	packet
-	P // c2
-  {// c3
-hdr 
-  // c4
-
-{ 
-    // c5
-	u8 // c6
-  a  // c7a
-// c7b
-	,  
-      // c8
-  }
-, // c10
-	u8 	 // c11
-  	x // c12a
-
-// c12b
-,
-
-    }
-    // c14
-")).
-Eval vm_compute in ("<<<M1325>>>" ++ check (runes_of_ascii "
-root	packet
-	Frame { u8
-    K , 
+    // c35
+BodyLen
+    // c36
+@lengthOf( Body
+    // c38
+) // c39
+, // c40a
+  // c40b
+u8 // c41a
+  // c41b
+flags , // c43
 Logon
-	first  ,
-match
-
-    K 
-as
-Body{1 : Logon,
-    2 :
-Logout  ,
-	}	,
-} 
-packet
-Logon
-	{
-string user ,
-} packet
-Logout
-
-{ u16 
-reason , }")).
-Eval vm_compute in ("<<<M1502>>>" ++ check (runes_of_ascii "
-// @lengthOf(
-	packet
-
-i8i8
-	{
-	u128 o
-    ,
-}	options
-{MetaDataX	=
-true
-
-;
-BodyLength = 
-""packet""x_y_z
-
-    = 007 crc //x
-	=
-""abc""
-msg_type = 
-i16 
+    // c44
+Body // c45
+, // c46a
+  // c46b
+u32
+    // c47
+trailer // c48
+, // c49a
+  // c49b
+} ")).
+Eval vm_compute in ("<<<M1363>>>" ++ check (runes_of_ascii "options {
+    StringPrefixLenType = u8;
+    ArrayPrefixLenType = u32;
+    FixedStringPadFromLeft = true;
+    FixedStringPadChar = ' ';
 }
-
-")).
-Eval vm_compute in ("<<<M511>>>" ++ check (runes_of_ascii "packet uint8x
-{ match pack
-    as msg_type	{
-    0123456789 :	float
+packet Leg {
 }
-,
-} packet //	t
-a1
-    { } options {packetx
-    = '\x00'	; u128 u128= ""a	b""  ; }
-")).
-Eval vm_compute in ("<<<M486>>>" ++ check (runes_of_ascii "packet uint8x
-{ match pack
-    as msg_type	{
-    0123456789 :	float
+packet Heartbeat {
+    zchar[6] msgKind,
+    @rightPad('0') char[3] Qty,
+    zchar[9] Side2,
+    i8 Acct,
 }
-,
-} packet //	t
-a1
-    { } options { {packetx
-    = '\x00'	; u128= ""a	b""  ; }
-")).
-Eval vm_compute in ("<<<M407>>>" ++ check (runes_of_ascii "packet uint8x
-{ pack match
-    as msg_type	{
-    0123456789 :	float
+packet Logout {
+    int8 x,
 }
-,
-} packet //	t
-a1
-    { } options {packetx
-    = '\x00'	; u128= ""a	b""  ; }
-")).
-Eval vm_compute in ("<<<M1803>>>" ++ check (runes_of_ascii "
-MetaData leftPad	{ 
-chars	MetaDataX,
+packet Order {
+    char[] Acct,
+    zchar[8] count,
+    u32 OrderId,
+    uint8 lastPx,
+    u16 clOrdID,
+    zchar[7] Note,
 }
-    packet
-
-    repeatCount {
-char[255	]
-
-uint8x `" ++ [233]%N ++ runes_of_ascii "`
-,}
-
-MetaData pack 
-    // c
-      {
-	As
-
-Foo ,
-
-}
-
-")).
-Eval vm_compute in ("<<<M698>>>" ++ check (runes_of_ascii "// @lengthOf(
-packet i8i8 { u128 o , }
-options { MetaDataX = true;
-    BodyLength =""packet"" x_y_z= 007
-crc //x
-= ""abc"" ;
-    msg_type =
-i16 i16 }")).
-Eval vm_compute in ("<<<M460>>>" ++ check (runes_of_ascii "packet uint8x
-{ match pack
-    as msg_type	{
-    0123456789 :	float
-}
-,
-}  //	t
-a1
-    { } options {packetx
-    = '\x00'	; u128= ""a	b""  ; }
-")).
-Eval vm_compute in ("<<<M185>>>" ++ check (runes_of_ascii "root packet lengthOf{ @leftPad
-    (
-' '// c
-)
-repeat char MetaDataX
-,
-}MetaData
-Pad {
-msg_type rootA// trailing space 
-`// not a comment`, }")).
-Eval vm_compute in ("<<<M524>>>" ++ check (runes_of_ascii "packet uint8x
-{ match pack
-    as msg_type	{
-    0123456789 :	float
-}
-,
-} packet //	t
-a1
-    { } options {packetx
-    = '\x00'	; u128=")).
-Eval vm_compute in ("<<<M1741>>>" ++ check (runes_of_ascii "packet	A
-
-    {match 
-k  as n
-{  [ 1
-
-    ,
-	""bb""
-	,	007 ,""d"" 
-,	5
-,""f""
-
-,
-7
-,
-    ""h""
-,
-9
-
-, ""j""
-
-    ] :  B
-	2 :
-
-C
-} ,}
-")).
-Eval vm_compute in ("<<<M1940>>>" ++ check (runes_of_ascii "packet A
-	{ match k 
-as 
-n
-	{ [ 1  ,
-
-22
-    ,  ""c c"" ,
-
-    4
-
-, 
-5 ,""f""  ,  7 ,	8
-	, 
-""i"" , 10]:	B
-
-2
-    :
-	C } ,
-}
-
-")).
-Eval vm_compute in ("<<<M1148>>>" ++ check (runes_of_ascii "MetaData leftPad {
-// c
-chars MetaDataX , } packet repeatCount { char[ 255 ] uint8x `" ++ [233]%N ++ runes_of_ascii "` , } MetaData pack { As Foo , }")).
-Eval vm_compute in ("<<<M1180>>>" ++ check (runes_of_ascii "MetaData leftPad { chars MetaDataX , } packet repeatCount { char[ 255 ] uint8x `" ++ [233]%N ++ runes_of_ascii "` , } MetaData pack
-// c
-{ As Foo , }")).
-Eval vm_compute in ("<<<M893>>>" ++ check (runes_of_ascii "packet A {
-  match k as n {
-    [""a"", ""bb"", ""c c"", ""d"", ""e"", ""f"", ""g"", ""h"", ""i"", ""j"", ""k""] : B,
-    2 : C
-  },
-}")).
-Eval vm_compute in ("<<<M908>>>" ++ check (runes_of_ascii "packet A {
-  match k as n {
-    [1, ""bb"", 007, ""d"", 5, ""f"", 7, ""h"", 9, ""j"", 11, ""l""] : B,
-    2 : C
-  },
-}")).
-Eval vm_compute in ("<<<M895>>>" ++ check (runes_of_ascii "packet A {
-  match k as n {
-    [1, ""bb"", 007, ""d"", 5, ""f"", 7, ""h"", 9, ""j"", 11] : B,
-    2 : C
-  },
-}")).
-Eval vm_compute in ("<<<M932>>>" ++ check (runes_of_ascii "packet A {
-    Inner {
-        u8 x `
-`,
-        Deep {
-            u8 y `
-`,
-        },
+root packet Reject {
+    @leftPad(' ') char[8] Side2,
+    i8 clOrdID,
+    repeat f32 x,
+    u32 lastPx,
+    match lastPx as Body {
+        [30, 147] : Heartbeat,
+        134 : Leg,
+        183 : Logout,
+        40 : Order,
     },
-}")).
-Eval vm_compute in ("<<<M615>>>" ++ check (runes_of_ascii "
-packet
-    asx {match u128 as lengthOf
-{
-//	t
+    u16 Ref @calculatedFrom(""CRC32""),
+}
+")).
+Eval vm_compute in ("<<<M122>>>" ++ check (runes_of_ascii "
+packet u128  { // trailing space 
+string  Header `say ""hi""` , repeat crc
+f32a,
+    char[ 10
+    ] _x	,	@calculatedFrom( ""x y""	) repeat
+    //
+    charz	{
+    Logon @lengthOf(T) `crlf
+line`
+, repeat char[ // trailing space 
+0123456789 ]Z9_
+    `crlf
+line` ,
+    } ,
+    match Packet
+    as
+// " ++ [128512]%N ++ runes_of_ascii " emoji
 // `tick` ""quote"" 'q'
-255 : x ,
-    match ,	}")).
-Eval vm_compute in ("<<<M842>>>" ++ check (runes_of_ascii "packet A {
-  match k as n {
-    [""a"", ""bb"", ""c c"", ""d"", ""e"", ""f"", ""g""] : B
-    2 : C
-  },
-}")).
-Eval vm_compute in ("<<<M619>>>" ++ check (runes_of_ascii "
-packet
-    asx {match u128 as lengthOf
+float // a // b
 {
-//	t
-// `tick` ""quote"" 'q'
-255 : x ,
-    } }	,")).
-Eval vm_compute in ("<<<M592>>>" ++ check (runes_of_ascii "
-packet
-    asx {match u128 as lengthOf
+    1
+:  lengthOf }  ,  MetaDataX , match x as
+u8x { 10 :crc } , } root packet // `tick` ""quote"" 'q'
+Header // a // b
+{ @calculatedFrom( ""{,}"") a1
+    {  char[
+    // packet A { u8 x, }
+    007 ] pack ,stringy //x
+zchar
+    , repeat
+char[]
+    // " ++ [128512]%N ++ runes_of_ascii " emoji
+    o `it's`	, } , }")).
+Eval vm_compute in ("<<<M1348>>>" ++ check (runes_of_ascii "options {
+    LittleEndian = false;
+    ArrayPrefixLenType = u8;
+    FixedStringPadFromLeft = true;
+    FixedStringPadChar = '0';
+}
+packet Heartbeat {
+    string lastPx,
+    uint8 Qty,
+    i64 Acct,
+    char[4] Ref,
+}
+packet Fill {
+    uint8 Ref,
+    Heartbeat,
+    f32 OrderId,
+    repeat f32 x,
+}
+root packet Order {
+    zchar[2] OrderId,
+    zchar[2] Acct,
+    zchar[1] Note,
+    zchar[9] Qty,
+    string price,
+    string tag7,
+    u32 x,
+    match x as Body {
+        123 : Fill,
+        112 : Heartbeat,
+    },
+    u32 seqNo @calculatedFrom(""CR\
+C32""),
+}
+")).
+Eval vm_compute in ("<<<M1377>>>" ++ check (runes_of_ascii "
+options
 {
-//	t
-// `tick` ""quote"" 'q'
- : x ,
-    } ,	}")).
-Eval vm_compute in ("<<<M837>>>" ++ check (runes_of_ascii "packet A {
-  match k as n {
-    [""a"", ""bb"", 007, ""d"", ""e"", 66] : B
-    2 : C
-  },
-}")).
-Eval vm_compute in ("<<<M916>>>" ++ check (runes_of_ascii "packet A { Inner { match k as n { [1,22,007,4,5,66,7,8,9,10,11,12] : B, }, }, }")).
-Eval vm_compute in ("<<<M1566>>>" ++ check (runes_of_ascii "packet A {
+
+    LittleEndian
+
+= true
+;StringPrefixLenType
+
+= u64 ;
+
+    ArrayPrefixLenType
+	= u16
+    ; FixedStringPadFromLeft	= false; FixedStringPadChar=
+' ' ;
+}	packet
+
+    Logon
+{
+
+zchar[ 
+5
+    ] Side2
+,	}	root 
+packet
+	Logout
+    { repeat
+    i64
+Tail
+
+,  Logon	,repeat
+    i16 OrderId , 
+char[] venue,
+
+    uint64
+x
+,repeat
+    i16	count , u8 
+Flags , match Flags
+as
+
+    Body	{
+
+    25
+
+    :  Logon
+,
+	},  u16
+    Qty  @calculatedFrom( ""CRC32""
+)
+
+    ,
+
+} ")).
+Eval vm_compute in ("<<<M1646>>>" ++ check (runes_of_ascii "options {
+    float = char[]
+}// packet A { u8 x, }
+
+root packet Logon {
     @tag(1)
-    // a
-    @leftPad('0')
-    // b
-    char[4] x,
-}")).
-Eval vm_compute in ("<<<M1758>>>" ++ check (runes_of_ascii "
+    // a // b
+    @calculatedFrom(""packet"")
+    zchar[3] Z9_,
+    @lengthOf(charz)
+    @calculatedFrom(""1"")
+    match roots as int {
+        ""a	b"" : MetaDataX,
+    },
+    @calculatedFrom(""a\""b"")
+    match asx as lengthOf {
+        """ ++ [128512]%N ++ runes_of_ascii """ : _x,
+        [255] : BodyLength,
+        3 : u8x,
+        0123456789 : T,
+    },
+    len @lengthOf(leftPad) `u8 x,`,
+}// @lengthOf(")).
+Eval vm_compute in ("<<<M1705>>>" ++ check (runes_of_ascii "  packet float
+    { 
+char[42
+] int	`say ""hi""`,
+
+    @tag(255 // packet A { u8 x, }
+  ) match 	 // a // b
+      stringy	as
+	x
+	{
+
+[
+00, 42
+]
+    :
+    i64_ 
+42: matchKey
+,
+    [
+	""1""
+
+,1,
+
+    42
+,	""" ++ [28040; 24687]%N ++ runes_of_ascii """	,""abc""
+,
+
+// a // b
+    //x
+
+1 	 // trailing space 
+  ] 
+:	//
+		roots
+	,65535	:trueish	,} , @calculatedFrom(
+""{,}"")  body@calculatedFrom(
+    """ ++ [28040; 24687]%N ++ runes_of_ascii """
+
+    ) ,
+	zchar[ 
+007 ]
+    lengthOf
+, }")).
+Eval vm_compute in ("<<<M74>>>" ++ check (runes_of_ascii "options{ u = 7
+    // " ++ [27880; 37322]%N ++ runes_of_ascii "
+    roots
+=zchar[
+65535
+    ]
+msg_type = """ ++ [233]%N ++ runes_of_ascii "t" ++ [233]%N ++ runes_of_ascii """
+; x =false
+    } MetaData string_ { char[ // trailing space 
+42
+//x
+// " ++ [128512]%N ++ runes_of_ascii " emoji
+]
+i8i8 `" ++ [28040; 24687; 31867; 22411]%N ++ runes_of_ascii "`	, u8
+    x_y_z
+, packetx lengthOf``
+    // " ++ [27880; 37322]%N ++ runes_of_ascii "
+    ,
+T Header `line1
+line2` ,
+char[] // " ++ [27880; 37322]%N ++ runes_of_ascii "
+u8x `two words` ,}packet
+float //x
+{
+    calculatedFrom
+    ,
+@rightPad ( '0'
+) char[
+    3
+] u128 , } 	 ")).
+Eval vm_compute in ("<<<M178>>>" ++ check (runes_of_ascii "packet // c
+As
+{@tag( 42
+    )
+    repeat Logon	uint8x
+// " ++ [128512]%N ++ runes_of_ascii " emoji
+//
+``, repeat int32
+    x_y_z ,char[7 // trailing space 
+]	pack , repeat string crc
+/// triple
 // c
-    packet body	{
+`// not a comment`
+, @calculatedFrom(
+    ""`tick`""
+    ) @tag( 1 )match
+    // @lengthOf(
+    chars as
+MetaDataX { 4294967296 : // @lengthOf(
+T ,
+} /// triple
+,
+}
+")).
+Eval vm_compute in ("<<<M57>>>" ++ check (runes_of_ascii "packet	tag { }
+packet falsey
+    { string charz @lengthOf(
+    zchar ) ,
+string // trailing space 
+u @calculatedFrom( """ ++ [233]%N ++ runes_of_ascii "t" ++ [233]%N ++ runes_of_ascii """	) `// not a comment`
+, @leftPad( '0' )
+char[] leftPad @calculatedFrom(
+    ""a	b"")`// not a comment` , @calculatedFrom(
+    ""`tick`"" )
+    @lengthOf(roots
+) repeat MetaDataX
+, }
+
+")).
+Eval vm_compute in ("<<<M1847>>>" ++ check (runes_of_ascii "
+
+  options {
+
+    LittleEndian // c2a
+	// c2b
+= 	 // c3
+		true 
+	    // c4
+;}  root
+
+// c7
+  packet P// c9a
+	// c9b
+  {	repeat
+
+char// c12a
+	// c12b
+
+cs // c13a
+    // c13b
+, 	 // c14a
+	  // c14b
+		u8 
+	    // c15
+	  x 
+// c16
+	,  // c17
+
+} 
+    // c18
+")).
+Eval vm_compute in ("<<<M1747>>>" ++ check (runes_of_ascii "packet metadata {
+    int32 calculatedFrom,
+}
+
+options {
+}
+
+options {
+    u128 = '\x00';
+    string_ = ""abc"";
+}
+
+root packet i8i8 {
+    @rightPad('\x00')
+    repeat metadata {
+        string_,
+        tag @lengthOf(falsey),
+    },//x
+}")).
+Eval vm_compute in ("<<<M1952>>>" ++ check (runes_of_ascii "
+MetaData// a // b
+  o  {
+    string Foo
+	,
+	}	MetaData
+
+    msg_type
+    { Header
+
+    len `" ++ [28040; 24687; 31867; 22411]%N ++ runes_of_ascii "` ,} options
+    {tag
+
+    = 
+'0';
+    o  =
+
+    ""CRC32"";
+
+    Logon=  ""`tick`""
+
+; 	 // a // b
+}
+")).
+Eval vm_compute in ("<<<M1541>>>" ++ check (runes_of_ascii "
+MetaData
+
+msg_type
+{}root	packet
+A
+    {
+repeat	i32
+
+leftPad
+	`it's` 
+, 
+        //x
+  	}root packet
+
+    a1
+{
+
+    char[
+        // c
+  255 ]falsey // @lengthOf(
+
+	, 
+}
+
+")).
+Eval vm_compute in ("<<<M336>>>" ++ check (runes_of_ascii "
+packet msg_type
+{
+    zchar[ 65535
+    /// triple
+    ]stringy // `tick` ""quote"" 'q'
+@calculatedFrom( """ ++ [233]%N ++ runes_of_ascii "t" ++ [233]%N ++ runes_of_ascii """ )
+,@tag( 0
+) repeat i64_,
+}
+// packet A { u8 x, }
+")).
+Eval vm_compute in ("<<<M537>>>" ++ check (runes_of_ascii "packet uint8x
+{ match pack
+    as msg_type	{
+    0123456789 :	float
+}
+,
+} packet //	t
+a1
+    { } o'\x01'ptions {packetx
+    = '\x00'	; u128= ""a	b""  ; }
+")).
+Eval vm_compute in ("<<<M451>>>" ++ check (runes_of_ascii "packet uint8x
+{ match pack
+    as msg_type	{
+    0123456789 :	float
+}
+, ,
+} packet //	t
+a1
+    { } options {packetx
+    = '\x00'	; u128= ""a	b""  ; }
+")).
+Eval vm_compute in ("<<<M275>>>" ++ check (runes_of_ascii "MetaData
+stringy { zchar[10 ] crc,  }
+    packet u128
+{ repeat uint16  BodyLength `// not a comment`, @lengthOf( falsey ) _x ,
+char[ 42 ]  i8i8	, }
+
+")).
+Eval vm_compute in ("<<<M532>>>" ++ check (runes_of_ascii "packet uint8x
+{ match pack
+    as msg_type	{
+    0123456789 :	float
+}
+,
+} packet //	t
+a1
+    { } options {packetx
+    = '\x00'	; u128= ""a	b""  ; )
+")).
+Eval vm_compute in ("<<<M394>>>" ++ check (runes_of_ascii "u32 uint8x
+{ match pack
+    as msg_type	{
+    0123456789 :	float
+}
+,
+} packet //	t
+a1
+    { } options {packetx
+    = '\x00'	; u128= ""a	b""  ; }
+")).
+Eval vm_compute in ("<<<M1472>>>" ++ check (runes_of_ascii "MetaData leftPad
+    // c
+      {	chars
+MetaDataX
+
+,	}packet repeatCount  {
+
+    char[  255	] 
+uint8x
+	`" ++ [233]%N ++ runes_of_ascii "` 
+, 
+} MetaData
+pack{
+As 
+Foo,
+    }")).
+Eval vm_compute in ("<<<M1288>>>" ++ check (runes_of_ascii "// top
+root
+    // c0
+packet P
+    // c2
+{ // c3a
+  // c3b
+repeat // c4
+string // c5
+ss , // c7
+repeat u16 ns ,
+    // c11
+} // c12a
+  // c12b
+")).
+Eval vm_compute in ("<<<M61>>>" ++ check (runes_of_ascii "packet
+    i64_ { }
+MetaData uint8x {Packet tag , u8	repeatCount
+, x_y_z
+_x `" ++ [233]%N ++ runes_of_ascii "`
+    , zchar[
+    42
+    ]
+    crc
+`a\` ,
+} options	{ }")).
+Eval vm_compute in ("<<<M1785>>>" ++ check (runes_of_ascii "
+packet B{
+
+    u8
+    a 
+,
+    } root
+packet P{
+u8
+K
+	,u8
+L @lengthOf( Body
+    ) 
+, match  K as
+
+Body
+
+{
+    1 : 
+B	,}
+,
+}
+")).
+Eval vm_compute in ("<<<M223>>>" ++ check (runes_of_ascii "packet  u { repeat
+    // " ++ [128512]%N ++ runes_of_ascii " emoji
+    A , @lengthOf( lengthOf
+)
+    repeat
+    i64
+i64_
+, //
+zchar[
+3// a // b
+] body , }
+")).
+Eval vm_compute in ("<<<M1143>>>" ++ check (runes_of_ascii "MetaData // c
+leftPad { chars MetaDataX , } packet repeatCount { char[ 255 ] uint8x `" ++ [233]%N ++ runes_of_ascii "` , } MetaData pack { As Foo , }")).
+Eval vm_compute in ("<<<M1175>>>" ++ check (runes_of_ascii "MetaData leftPad { chars MetaDataX , } packet repeatCount { char[ 255 ] uint8x `" ++ [233]%N ++ runes_of_ascii "` , } // c
+MetaData pack { As Foo , }")).
+Eval vm_compute in ("<<<M1485>>>" ++ check (runes_of_ascii "packet A {
+    B b `a
+        
+        b`,
+    B `a
+        
+        b`,
+    repeat B bs `a
+        
+        b`,
+}")).
+Eval vm_compute in ("<<<M881>>>" ++ check (runes_of_ascii "packet A {
+  match k as n {
+    [""a"", ""bb"", ""c c"", ""d"", ""e"", ""f"", ""g"", ""h"", ""i"", ""j""] : B
+    2 : C
+  },
+}")).
+Eval vm_compute in ("<<<M888>>>" ++ check (runes_of_ascii "packet A {
+  match k as n {
+    [""a"", ""bb"", 007, ""d"", ""e"", 66, ""g"", ""h"", 9, ""j""] : B,
+    2 : C
+  },
+}")).
+Eval vm_compute in ("<<<M882>>>" ++ check (runes_of_ascii "packet A {
+  match k as n {
+    [1, ""bb"", 007, ""d"", 5, ""f"", 7, ""h"", 9, ""j""] : B,
+    2 : C
+  },
+}")).
+Eval vm_compute in ("<<<M389>>>" ++ check (runes_of_ascii "root packet SimpleMessage {
+    uint16 MsgType `" ++ [28040; 24687; 31867; 22411]%N ++ runes_of_ascii "`,
+    string JsonBody `Json" ++ [23383; 31526; 20018; 28040; 24687; 20307]%N ++ runes_of_ascii "`,
+}")).
+Eval vm_compute in ("<<<M618>>>" ++ check (runes_of_ascii "
+packet
+    asx {match u128 as lengthOf
+{
+//	t
+// `tick` ""quote"" 'q'
+255 : x ,
+    } , ,	}")).
+Eval vm_compute in ("<<<M579>>>" ++ check (runes_of_ascii "
+packet
+    asx {match u128 lengthOf as
+{
+//	t
+// `tick` ""quote"" 'q'
+255 : x ,
+    } ,	}")).
+Eval vm_compute in ("<<<M595>>>" ++ check (runes_of_ascii "
+packet
+    asx {match u128 as lengthOf
+{
+//	t
+// `tick` ""quote"" 'q'
+: : x ,
+    } ,	}")).
+Eval vm_compute in ("<<<M836>>>" ++ check (runes_of_ascii "packet A {
+  match k as n {
+    [""a"", ""bb"", 007, ""d"", ""e"", 66] : B,
+    2 : C
+  },
+}")).
+Eval vm_compute in ("<<<M823>>>" ++ check (runes_of_ascii "packet A {
+  match k as n {
+    [""a"", ""bb"", 007, ""d"", ""e""] : B,
+    2 : C
+  },
+}")).
+Eval vm_compute in ("<<<M1563>>>" ++ check (runes_of_ascii "  packet
+    body
+	{
 
     i32
-
-f32a	`{ , }`
-,
-
+	f32a 	 // c
+	`{ , }` , 
 }
-    options{  }
+    options { 
+} ")).
+Eval vm_compute in ("<<<M1874>>>" ++ check (runes_of_ascii "// top
+    MetaData 
+    // c0
 
-")).
-Eval vm_compute in ("<<<M851>>>" ++ check (runes_of_ascii "packet A { Inner { match k as n { [1,22,007,4,5,66,7] : B, }, }, }")).
-Eval vm_compute in ("<<<M151>>>" ++ check (runes_of_ascii "packet
-    stringy
-{ } MetaData crc
-/// triple
-//x
-{ u16 o ,}")).
-Eval vm_compute in ("<<<M1949>>>" ++ check (runes_of_ascii "root packet P {
-    hdr {
-        u8 a,
-    },
-    u8 x,
-}")).
-Eval vm_compute in ("<<<M1219>>>" ++ check (runes_of_ascii "packet body { i32 f32a `{ , }` , } options { } // c
-")).
-Eval vm_compute in ("<<<M1085>>>" ++ check (runes_of_ascii "packet A { B { // a
- u8 x, // b
- } // c
- , // d
- }")).
-Eval vm_compute in ("<<<M7>>>" ++ check (runes_of_ascii "options {  metadata = ""a\\""// @lengthOf(
-;}
-")).
-Eval vm_compute in ("<<<M1066>>>" ++ check (runes_of_ascii "packet A {
-    u8 x,    // c    u8 y,
-}")).
-Eval vm_compute in ("<<<M1719>>>" ++ check (runes_of_ascii "
-packet	A
-{
-
-u8	x
-	`d" ++ [65279]%N ++ runes_of_ascii "` , // c" ++ [65279]%N ++ runes_of_ascii "
-}")).
-Eval vm_compute in ("<<<M1890>>>" ++ check (runes_of_ascii "
-packet  A
-    {
-
+tag
+        // c1
+  {	// c2
 } 
-    // c" ++ [6158]%N ++ runes_of_ascii "
+
+// c3
 ")).
-Eval vm_compute in ("<<<M1058>>>" ++ check (runes_of_ascii "packet A {
- u8 x `d" ++ [6158]%N ++ runes_of_ascii "`, // c" ++ [6158]%N ++ runes_of_ascii "
+Eval vm_compute in ("<<<M1087>>>" ++ check (runes_of_ascii "packet A { match k as n { [ // a
+ 1 // b
+ , // c
+ 2 ] // d
+ : B }, }")).
+Eval vm_compute in ("<<<M784>>>" ++ check (runes_of_ascii "packet A {
+  match k as n {
+    [""a"", 22] : B,
+    2 : C
+  },
 }")).
-Eval vm_compute in ("<<<M1697>>>" ++ check (runes_of_ascii "packet
-A
-    { }
-	// c" ++ [8192]%N ++ runes_of_ascii "
-")).
-Eval vm_compute in ("<<<M153>>>" ++ check (runes_of_ascii "// trailing space 
+Eval vm_compute in ("<<<M812>>>" ++ check (runes_of_ascii "packet A { Inner { match k as n { [1,22,007,4] : B, }, }, }")).
+Eval vm_compute in ("<<<M1607>>>" ++ check (runes_of_ascii "packet body {
+    i32 f32a `{ , }`,
+}
+
+options {
+}// c")).
+Eval vm_compute in ("<<<M1215>>>" ++ check (runes_of_ascii "packet body { i32 f32a `{ , }` , } options // c
+{ }")).
+Eval vm_compute in ("<<<M434>>>" ++ check (runes_of_ascii "packet uint8x
+{ match pack
+    as msg_type	{")).
+Eval vm_compute in ("<<<M1480>>>" ++ check (runes_of_ascii "MetaData lengthOf {
+    Header o `doc`,
+}")).
+Eval vm_compute in ("<<<M1740>>>" ++ check (runes_of_ascii "
+packet A  {  u8
+
+x
+	`x
+`
+,
+    }
 
 ")).
-Eval vm_compute in ("<<<M244>>>" ++ check (runes_of_ascii "MetaData u128{} //x")).
-Eval vm_compute in ("<<<M1006>>>" ++ check (runes_of_ascii "packet A {
+Eval vm_compute in ("<<<M1043>>>" ++ check (runes_of_ascii "packet A {
+ u8 x `d 	`, // c 	
+}")).
+Eval vm_compute in ("<<<M1008>>>" ++ check (runes_of_ascii "packet A {
+ u8 x `d" ++ [8202]%N ++ runes_of_ascii "`, // c" ++ [8202]%N ++ runes_of_ascii "
+}")).
+Eval vm_compute in ("<<<M1065>>>" ++ check (runes_of_ascii "packet A {
+}// a// b// c
+")).
+Eval vm_compute in ("<<<M286>>>" ++ check (runes_of_ascii " // `tick` ""quote"" 'q'")).
+Eval vm_compute in ("<<<M59>>>" ++ check (runes_of_ascii "packet
+int {
 }
-// c" ++ [8202]%N)).
-Eval vm_compute in ("<<<M729>>>" ++ check (runes_of_ascii "// only a comment")).
-Eval vm_compute in ("<<<M409>>>" ++ check (runes_of_ascii "packet uint8x
-{")).
-Eval vm_compute in ("<<<M749>>>" ++ check ([1; 65533]%N ++ runes_of_ascii ">&EQX" ++ [65533]%N ++ runes_of_ascii "P" ++ [65533; 65533]%N)).
-Eval vm_compute in ("<<<M1050>>>" ++ check (runes_of_ascii "// c" ++ [65279]%N)).
+//	t
+")).
+Eval vm_compute in ("<<<M981>>>" ++ check (runes_of_ascii "packet A {
+}
+// c" ++ [12288]%N)).
+Eval vm_compute in ("<<<M1074>>>" ++ check (runes_of_ascii "MetaData M {
+}// c")).
+Eval vm_compute in ("<<<M1229>>>" ++ check (runes_of_ascii "packet x
+// c
+{ }")).
+Eval vm_compute in ("<<<M1548>>>" ++ check (runes_of_ascii "packet x {
+}")).
+Eval vm_compute in ("<<<M1025>>>" ++ check (runes_of_ascii "// c" ++ [8287]%N)).
